@@ -1,1 +1,182 @@
-/- C12 property theorems (stub: not built yet) -/
+import ThriftVerif.Lib.FileManager
+import ThriftVerif.Lib.FileManagerLemmas
+import ThriftVerif.Generated.C12
+/-
+  C12 — output assembly loses nothing: insertion points and file-name conflicts.
+  Property theorems only; the model is Lib/FileManager.lean (generator/file_manager.go),
+  helper lemmas are in Lib/FileManagerLemmas.lean.  `cfg` is the regenerated description of the
+  insertion-point regexp and of plugin.InsertionPointFormat.
+
+  Histories: `calls : List (List Item)` is an arbitrary sequence of Feed calls, of any length,
+  `feedAll St.init calls` the manager after them, `build cfg st` the response of BuildResponse.
+  A state `st` "reached" means `st = feedAll St.init calls`; theorems about one step of the loop
+  take `last` and `skip` arbitrary, so they also cover every point inside a call.
+-/
+namespace Props.C12
+open FileManager Generated.C12
+
+/-- the manager after an arbitrary history -/
+abbrev after (calls : List (List Item)) : St := feedAll St.init calls
+
+/-- regenerated obligation: the patch key format and the regexp agree on prefix and closing byte,
+and the closing byte is outside the class (so the class run of a marker is delimited). -/
+theorem marker_cfg_facts : CfgOK cfg := by decide
+
+/-! ### files are never overwritten, merged or reordered -/
+
+/-- one Feed call only appends to `files`: every stored (name, content) keeps its position, name and content. -/
+theorem first_content_kept (st : St) (items : List Item) :
+    ∃ ex, (feed st items).1.files = st.files ++ ex := feedLoop_files_prefix items st [] false
+
+/-- … and so over any continuation of any history. -/
+theorem first_content_kept_history (calls more : List (List Item)) :
+    ∃ ex, (after (calls ++ more)).files = (after calls).files ++ ex := by
+  unfold after; rw [feedAll_append]; exact feedAll_files_prefix more _
+
+/-- the patches recorded for a name are only ever appended to (submission order is kept). -/
+theorem patches_only_appended (st : St) (items : List Item) (n : Bytes) :
+    ∃ ex, (feed st items).1.patch n = st.patch n ++ ex := feedLoop_patch_prefix items st [] false n
+
+/-! ### a later file with an existing name -/
+
+/-- identical content (to the file of that name or to any of its renamed siblings `name_1 … name_count`):
+the item and the unnamed patches directly following it change nothing. -/
+theorem dup_dropped (calls : List (List Item)) (last : Bytes) (skip : Bool) (f : Item) (name : Bytes) (idx : Nat)
+    (ups rest : List Item)
+    (hn : f.name = some name) (hi : (after calls).index name = some idx) (hip : f.ip = [])
+    (hd : ∃ i ∈ siblings (after calls) name idx, contentAt (after calls) i = some f.content)
+    (hu : ∀ u ∈ ups, u.name = none) :
+    feedLoop (after calls) last skip (f :: (ups ++ rest)) = feedLoop (after calls) last true rest :=
+  feedLoop_dup _ last skip f name idx ups rest hn hi hip
+    (siblings_valid (Inv.feedAll calls Inv.init) name idx hi) hd hu
+
+/-- different content: stored as a new file under `name_{count+1}`, the earlier files untouched,
+`count[name]` bumped, and `last` becomes the new name (its unnamed patches follow the renamed file). -/
+theorem conflict_renamed (calls : List (List Item)) (last : Bytes) (skip : Bool) (f : Item) (name : Bytes) (idx : Nat)
+    (rest : List Item)
+    (hn : f.name = some name) (hi : (after calls).index name = some idx) (hip : f.ip = [])
+    (hd : ¬ ∃ i ∈ siblings (after calls) name idx, contentAt (after calls) i = some f.content) :
+    feedLoop (after calls) last skip (f :: rest) =
+      feedLoop (renameSt (after calls) name (sib name ((after calls).count name + 1)) f.content)
+        (sib name ((after calls).count name + 1)) false rest :=
+  feedLoop_conflict _ last skip f name idx rest hn hi hip
+    (siblings_valid (Inv.feedAll calls Inv.init) name idx hi) hd
+
+/-- the positions compared above are those of files named `name` or `name_j`, all existing. -/
+theorem siblings_are_family (calls : List (List Item)) (name : Bytes) (idx : Nat)
+    (hi : (after calls).index name = some idx) :
+    ∀ i ∈ siblings (after calls) name idx, ∃ m c, (after calls).files[i]? = some (m, c) ∧ Fam name m :=
+  siblings_fam (Inv.feedAll calls Inv.init) name idx hi
+
+/-- renamed names are injective in (name, k): `a_j` = `b_k` only if `a = b` and `j = k`. -/
+theorem sib_injective (a b : Bytes) (j k : Nat) (h : sib a j = sib b k) : a = b ∧ j = k := sib_inj a b j k h
+
+/-! ### patches -/
+
+/-- an unnamed patch goes to the list of `last`; a named item with an insertion point whose name
+exists goes to the list of that name and makes it `last`. -/
+theorem patch_goes_to_last (st : St) (last : Bytes) (skip : Bool) (f : Item) (rest : List Item) :
+    (f.name = none → last ≠ [] →
+      feedLoop st last false (f :: rest) = feedLoop (addPatch st last f) last false rest) ∧
+    (∀ name idx, f.name = some name → st.index name = some idx → f.ip ≠ [] →
+      feedLoop st last skip (f :: rest) = feedLoop (addPatch st name f) name false rest) :=
+  ⟨fun hn hl => feedLoop_unnamed_patch st last f rest hn hl,
+   fun name idx hn hi hip => feedLoop_named_patch st last skip f rest name idx hn hi hip⟩
+
+/-- a call that starts with an unnamed item fails and leaves the manager as it was. -/
+theorem unnamed_first_is_error (st : St) (f : Item) (rest : List Item) (hn : f.name = none) :
+    feed st (f :: rest) = (st, .err) := feedLoop_unnamed_err st f rest hn
+
+/-- … and (no file being named "") that is the only way a call fails. -/
+theorem feed_error_iff (st : St) (items : List Item) (hne : ∀ f ∈ items, f.name ≠ some []) :
+    (feed st items).2 = .err ↔ ∃ f rest, items = f :: rest ∧ f.name = none := feed_err_iff st items hne
+
+example : ∀ f ∈ [(⟨some [97], [], [88]⟩ : Item)], f.name ≠ some [] := by decide
+
+/-- no history makes Feed index `files` out of range. -/
+theorem feed_never_panics (calls : List (List Item)) : Outcome.panic ∉ outcomes St.init calls :=
+  outcomes_no_panic calls St.init Inv.init
+
+/-! ### nothing is lost -/
+
+/-- after any history, a successful call leaves every named file item (no insertion point) it
+contains stored — under its name or a name derived from it, with exactly its content — and it
+stays stored whatever is fed later. -/
+theorem nothing_lost (calls : List (List Item)) (items : List Item) (more : List (List Item))
+    (hok : (feed (after calls) items).2 = .ok) :
+    ∀ f ∈ items, ∀ n, f.name = some n → f.ip = [] → Stored (after (calls ++ [items] ++ more)) n f.content := by
+  intro f hf n hn hip
+  have h1 := feedLoop_nothing_lost items (after calls) [] false (Inv.feedAll calls Inv.init) hok f hf n hn hip
+  have e : after (calls ++ [items] ++ more) = feedAll (feed (after calls) items).1 more := by
+    unfold after; rw [feedAll_append, feedAll_append]; rfl
+  rw [e]
+  exact h1.mono (feedAll_files_prefix more _)
+
+/-! ### unique names
+
+The full statement
+    theorem names_unique (calls) : ((build cfg (after calls)).map (·.1)).Nodup
+is FALSE for the code as it is: the probe loop accepts `name_{count+1}` without looking it up in
+`index`, so a file submitted under that very name earlier is shadowed (`names_unique_false`).
+It holds when no submitted name has the shape of a renamed submitted name. -/
+
+theorem names_unique_partial (calls : List (List Item))
+    (h : noRenameShaped (histNames calls) (histLen calls) = true) :
+    ((build cfg (after calls)).map (·.1)).Nodup := names_nodup_of_nrs cfg calls h
+
+/-- the hypothesis is satisfiable, also by histories with conflicts: a.go:X, a.go:Y, b.go:X -/
+example : noRenameShaped (histNames [[⟨some [97, 46, 103, 111], [], [88]⟩, ⟨some [97, 46, 103, 111], [], [89]⟩,
+    ⟨some [98, 46, 103, 111], [], [88]⟩]]) 3 = true := by decide
+
+/-- witness `a.go:X, a_1.go:X, a.go:Y` (one call): the response holds `a.go, a_1.go, a_1.go`. -/
+def witness : List (List Item) :=
+  [[⟨some [97, 46, 103, 111], [], [88]⟩, ⟨some [97, 95, 49, 46, 103, 111], [], [88]⟩, ⟨some [97, 46, 103, 111], [], [89]⟩]]
+
+theorem names_unique_false : ¬ ∀ calls : List (List Item), ((build cfg (after calls)).map (·.1)).Nodup := by
+  intro h
+  have h1 := h witness
+  have h2 : (build cfg (after witness)).map (·.1) =
+      [[97, 46, 103, 111], [97, 95, 49, 46, 103, 111], [97, 95, 49, 46, 103, 111]] := by decide
+  rw [h2] at h1
+  simp at h1
+
+/-! ### insertion points -/
+
+/-- the scan cuts a content into literal bytes and markers and loses nothing. -/
+theorem scan_lossless (content : Bytes) : flatten (scan cfg content) = content := by
+  unfold scan; simpa using flatten_segment (markerLen cfg) content 0
+
+/-- BuildResponse keeps names and order and rewrites each content by `render`: literal bytes stay,
+every occurrence of a marker is replaced by the texts of the file's patches for that point,
+concatenated in submission order (`patchText`) — for files whose patch points lie in the marker
+alphabet. -/
+theorem patches_in_order (st : St) (h : ∀ nc ∈ st.files, WordPoints cfg (st.patch nc.1)) :
+    build cfg st = st.files.map fun nc => (nc.1, render cfg (st.patch nc.1) (scan cfg nc.2)) := by
+  unfold build
+  apply List.map_congr_left
+  intro nc hnc
+  obtain ⟨n, c⟩ := nc
+  simp only
+  rw [replace_eq_render cfg marker_cfg_facts c (st.patch n) (h (n, c) hnc)]
+
+example : WordPoints cfg [⟨[105, 109, 112, 111, 114, 116, 115], [80]⟩] := by decide
+
+/-- a marker never survives as such: with no patch text at all the result is the literal bytes only. -/
+theorem markers_removed (content : Bytes) (ps : List Patch) (hw : WordPoints cfg ps) (h : ∀ p ∈ ps, p.content = []) :
+    replace (replacerOf cfg content ps) content = lits (scan cfg content) := by
+  rw [replace_eq_render cfg marker_cfg_facts content ps hw, render_no_text cfg ps h]
+
+/-- the bytes outside markers appear in the result unchanged and in order. -/
+theorem text_preserved (content : Bytes) (ps : List Patch) (hw : WordPoints cfg ps) :
+    (lits (scan cfg content)).Sublist (replace (replacerOf cfg content ps) content) := by
+  rw [replace_eq_render cfg marker_cfg_facts content ps hw]
+  exact lits_sublist_render cfg ps _
+
+/-- BuildResponse hands the replacer's pairs over in Go map order; whatever that order is, the
+result is the same (points in the marker alphabet). -/
+theorem replacer_order_irrelevant (content : Bytes) (ps : List Patch) (hw : WordPoints cfg ps)
+    (m' : List (Bytes × Bytes)) (hp : m'.Perm (replacerOf cfg content ps)) :
+    replace m' content = replace (replacerOf cfg content ps) content :=
+  replace_perm cfg marker_cfg_facts content ps hw m' hp
+
+end Props.C12
